@@ -21,10 +21,12 @@ def ensure_deps():
                    stdout=subprocess.DEVNULL, stderr=subprocess.DEVNULL)
 
 
-def worker_env():
+def worker_env(spec=None):
     env = dict(os.environ)
     env["PYTHONPATH"] = os.pathsep.join([REPO, HERE, os.path.join(HERE, ".deps")])
-    env["PYTHONHASHSEED"] = "0"
+    # string hashing differs from shard to shard (deterministically: derived from the shard's seed), so that behaviour depending on the iteration order of a set / dict of
+    # names is not always observed under one and the same order; the value is stored in every violation record and restored on replay
+    env["PYTHONHASHSEED"] = str(int((spec or {}).get("hashseed", 0)) % 4294967295)
     env["PRTPY_VERIF"] = "1"
     env["VERIF_REPO"] = REPO
     env["PYTHONDONTWRITEBYTECODE"] = "1"
@@ -40,7 +42,7 @@ def run_shard(prop, spec, tmpdir, idx):
         json.dump(spec, f)
     wd = float(spec.get("watchdog_s", 600))
     try:
-        p = subprocess.run([PY, "-B", "-m", "rv.worker", prop, sp, op], cwd=HERE, env=worker_env(),
+        p = subprocess.run([PY, "-B", "-m", "rv.worker", prop, sp, op], cwd=HERE, env=worker_env(spec),
                            timeout=wd, stdout=subprocess.PIPE, stderr=subprocess.PIPE)
     except subprocess.TimeoutExpired as e:
         return {"status": "shard_timeout", "spec": spec, "error": (e.stderr or b"").decode(errors="replace")[-2000:]}
@@ -111,9 +113,11 @@ def main(argv=None):
         with open(a.replay) as f:
             rec = json.load(f)
         case = rec.get("case", rec)
-        specs = [{"seed": a.seed, "replay": case, "watchdog_s": 900, "tier": a.tier, "debug_logging": bool(rec.get("debug_logging"))}]
+        specs = [{"seed": a.seed, "replay": case, "watchdog_s": 900, "tier": a.tier, "debug_logging": bool(rec.get("debug_logging")), "hashseed": int(rec.get("hashseed", 0))}]
     else:
         specs = m.plan(a.tier, a.seed)
+        for sp_ in specs:
+            sp_.setdefault("hashseed", (int(sp_.get("seed", 0)) * 2654435761 + 12345) % 4294967295 if int(sp_.get("shard", 0)) % 2 else 0)     # every other shard: a hash seed of its own
         for s in specs:
             s.setdefault("tier", a.tier)
         # re-demonstrate every open known finding on its fixed example first (DESIGN §3)
